@@ -189,3 +189,21 @@ func Quote(s string) string { return parse.Quote(s) }
 
 // Join joins words with spaces.
 func Join(ws ...string) string { return strings.Join(ws, " ") }
+
+// RunSync is Run on the CALLING goroutine (no watchdog): needed when hooks identify the goroutine.
+func RunSync(ev *eval.Evaler, code string) (o Outcome) {
+	port, collect, err := eval.CapturePort()
+	if err != nil {
+		return Outcome{Err: err}
+	}
+	func() {
+		defer func() {
+			if p := recover(); p != nil {
+				o.Panic = fmt.Sprintf("%v\n%s", p, debug.Stack())
+			}
+		}()
+		o.Err = ev.Eval(parse.Source{Name: "[verif]", Code: code}, eval.EvalCfg{Ports: []*eval.Port{nil, port, nil}})
+	}()
+	o.Values, o.Bytes = collect()
+	return o
+}
